@@ -103,12 +103,20 @@ impl BBSplusPoKSignature {
     ///
     /// * `Result<Self, Error>` - A result containing the deserialized `BBSplusPoKSignature` or an error.
     pub fn from_bytes(bytes: &[u8]) -> Result<Self, Error> {
+        // octets_to_proof: 3 points, at least 4 scalars (e^, r1^, r3^, challenge), whole scalars only
+        if bytes.len() < 3 * 48 + 4 * 32 || (bytes.len() - 3 * 48) % 32 != 0 {
+            return Err(Error::InvalidProofOfKnowledgeSignature);
+        }
         let Abar = parse_g1_projective(&bytes[0..48])
             .map_err(|_| Error::InvalidProofOfKnowledgeSignature)?;
         let Bbar = parse_g1_projective(&bytes[48..96])
             .map_err(|_| Error::InvalidProofOfKnowledgeSignature)?;
         let D = parse_g1_projective(&bytes[96..144])
             .map_err(|_| Error::InvalidProofOfKnowledgeSignature)?;
+        // octets_to_proof: none of the points may be Identity_G1
+        if Abar == G1Projective::IDENTITY || Bbar == G1Projective::IDENTITY || D == G1Projective::IDENTITY {
+            return Err(Error::InvalidProofOfKnowledgeSignature);
+        }
 
         let e_cap = Scalar::from_bytes_be(&bytes[144..176])
             .map_err(|_| Error::InvalidProofOfKnowledgeSignature)?;
@@ -964,6 +972,10 @@ impl BBSplusZKPoK {
     /// # Output
     /// * A Result containing the `BBSplusZKPoK` or an Error.
     pub fn from_bytes(bytes: &[u8]) -> Result<Self, Error> {
+        // at least s^ and the challenge, whole scalars only
+        if bytes.len() < 2 * 32 || bytes.len() % 32 != 0 {
+            return Err(Error::InvalidProofOfKnowledgeSignature);
+        }
         let s_cap = Scalar::from_bytes_be(
             &<[u8; 32]>::try_from(&bytes[0..32])
                 .map_err(|_| Error::InvalidProofOfKnowledgeSignature)?,
